@@ -561,6 +561,9 @@ def _caught_by_all_callers(f: FunctionInfo, name: str, callers, reach, depth: in
 
 
 def run(ctx: Ctx) -> None:
+    from .creationmodel import creation_rule
+    ctx.rule("C01.R8", "over ALL decision sequences on the creation model grammars, every program depth-limited creation produces is well-typed")
+    ctx.floor("C01.R8", creation_rule(ctx, "C01.R8", "typed"), 20, "model grammar x decider x limit")
     ctx.rule("C01.R1", "creators dispatch tuple / annotated / union / abstract forms with satisfiable form predicates")
     ctx.rule("C01.R2", "no lazily evaluated object flows into a program")
     ctx.rule("C01.R3", "decider base-type primitives and creator base branches return exactly the declared base type")
